@@ -861,7 +861,7 @@ func (c *codegen) Visit(node ast.Node) ast.Visitor {
 		return nil
 
 	case *ast.SliceExpr:
-		if isCompoundSlice(c.typeOf(n.X).Underlying()) {
+		if isCompoundSlice(c.typeOf(n.X).Underlying()) || isCompoundArray(c.typeOf(n.X).Underlying()) {
 			c.prog.Err = errors.New("subslices are supported only for []byte and string")
 			return nil
 		}
